@@ -369,4 +369,49 @@ theorem C02_cex_value_variant_accepts_invalid :
 example : judgeRoot true [.sch .bool, .free .objNull] (rootOf id (fun _ => []) true [.sch .bool, .free .objNull])
     (.obj [("k".toList, .arr [.num 1 0, .null])]) = true := by decide
 
+/-! ### lifting theorems for unions, both halves, `oneOf` and `anyOf` -/
+
+/-- REJECTION half: if the property holds for every schema alternative on `doc` and `doc` is valid against no alternative (not
+even leniently), a union of schema and `null` alternatives refuses `doc` — `oneOf` and `anyOf`, whatever the alternatives are -/
+theorem C02_union_rejects_lift (fname : Str → Str) (vname : J → Str) (oneOf : Bool) (alts : List Alt) (doc : J)
+    (hshape : ∀ a ∈ alts, a.isConst = false ∧ ∀ k, a ≠ .free k)
+    (hgood : ∀ s, Alt.sch s ∈ alts → judge s (typeOf fname vname s) doc = true)
+    (hinv : ∀ a ∈ alts, validAlt true a doc = false) :
+    rtU (unionTy fname vname alts) doc = none ∧ judgeU oneOf alts (unionTy fname vname alts) doc = true :=
+  union_rejects_lift fname vname oneOf alts doc hshape hgood hinv
+
+/-- ACCEPTANCE half through `oneOf`: as `C02_union_lift`, and the re-encoded document must not have become valid against another
+alternative (finding F02-14 is a violation of exactly this premise) -/
+theorem C02_union_lift_oneOf (fname : Str → Str) (vname : J → Str) (pre post : List Alt) (s : S) (doc : J)
+    (hv : valid false s doc = true) (hj : judge s (typeOf fname vname s) doc = true)
+    (hpre : ∀ u ∈ unionTy fname vname pre, rtVar u doc = none)
+    (hothers : ∀ a ∈ pre ++ post, validAlt false a doc = false)
+    (hout : ∀ out, rt (typeOf fname vname s) doc = some out → ∀ a ∈ pre ++ post, validAlt false a out = false) :
+    judgeU true (pre ++ .sch s :: post) (unionTy fname vname (pre ++ .sch s :: post)) doc = true :=
+  union_lift_oneOf fname vname pre post s doc hv hj hpre hothers hout
+
+/-- on the array fragment (scalars of every width, arrays to any depth, one nullable wrapper) the rejection half of a union
+needs no hypothesis about the alternatives beyond the absence of a width class: every document that is valid against none of
+them is refused, for every list of such alternatives -/
+theorem C02_frag_union_rejects (fname : Str → Str) (vname : J → Str) (oneOf : Bool) (ss : List S) (doc : J)
+    (hfrag : ∀ s ∈ ss, frag s = true) (hcls : ∀ s ∈ ss, classes fname vname s doc = [])
+    (hinv : ∀ s ∈ ss, valid true s doc = false) :
+    judgeU oneOf (ss.map Alt.sch) (unionTy fname vname (ss.map Alt.sch)) doc = true := by
+  refine (union_rejects_lift fname vname oneOf (ss.map Alt.sch) doc ?_ ?_ ?_).2
+  · intro a ha
+    obtain ⟨s, _, rfl⟩ := List.mem_map.mp ha
+    exact ⟨rfl, fun k h => by cases h⟩
+  · intro s hs
+    obtain ⟨s', hs', e⟩ := List.mem_map.mp hs
+    cases e
+    exact good_frag fname vname s (hfrag s hs') doc (hcls s hs')
+  · intro a ha
+    obtain ⟨s, hs, rfl⟩ := List.mem_map.mp ha
+    simpa [validAlt] using hinv s hs
+
+/-- non-vacuity: `oneOf: [int32, array of string, boolean]` refuses `"x"` and `{}` -/
+example : (∀ s ∈ [S.int (some .i32), .arr .str, .bool], frag s = true) ∧
+    (∀ s ∈ [S.int (some .i32), .arr .str, .bool], valid true s (st "x") = false) ∧
+    (∀ s ∈ [S.int (some .i32), .arr .str, .bool], classes id (fun _ => []) s (st "x") = []) := by decide
+
 end Oas3.Codec.C02
